@@ -266,6 +266,52 @@ def r10_2(rep: Report) -> None:
             rep.ok(rid, c, 'no second encoder')
 
 
+def _shrinks(e: ast.AST) -> bool:
+    """an expression that can turn a non-empty set into an empty one"""
+    for n in ast.walk(e):
+        if isinstance(n, ast.BinOp) and isinstance(n.op, (ast.Sub, ast.BitAnd)):
+            return True
+        if isinstance(n, ast.Call) and isinstance(n.func, ast.Attribute) and n.func.attr in (
+                'difference', 'intersection', 'difference_update', 'intersection_update', 'discard', 'remove', 'clear', 'pop'):
+            return True
+        if isinstance(n, (ast.SetComp, ast.ListComp, ast.GeneratorExp)) and any(g.ifs for g in n.generators):
+            return True
+        if isinstance(n, ast.Call) and call_name(n) in ('set', 'frozenset') and not n.args:
+            return True
+        if isinstance(n, ast.Call) and call_name(n) == 'filter':
+            return True
+    return False
+
+
+def empty_location_set_possible(rep: Report) -> ast.AST | None:
+    """a statement between the drm option and the DRM systems that can leave a requested location set empty
+    (the option parser builds one location per listed name, so the sets it makes have at least one member)"""
+    for rel, cname, fname in (('dashlive/server/requesthandler/drm_context.py', 'DrmContext', 'generate_drm_location_tuples'),
+                              ('dashlive/server/requesthandler/drm_context.py', 'DrmContext', '__init__'),
+                              ('dashlive/server/options/drm_options.py', None, '_drm_selection_from_string')):
+        tree = rep.repo.tree(rel)
+        scope = find_class(tree, cname) if cname else tree
+        fn = find_func(scope, fname) if scope is not None else None
+        if fn is None:
+            continue
+        for st in ast.walk(fn):
+            if isinstance(st, (ast.Assign, ast.AnnAssign, ast.AugAssign)):
+                tg = st.targets if isinstance(st, ast.Assign) else [st.target]
+                if any(isinstance(t, ast.Name) and 'loc' in t.id.lower() for t in tg):
+                    if isinstance(st, ast.AugAssign) and isinstance(st.op, (ast.Sub, ast.BitAnd)):
+                        return st
+                    if getattr(st, 'value', None) is not None and _shrinks(st.value):
+                        return st
+            if isinstance(st, ast.Expr) and isinstance(st.value, ast.Call) and isinstance(st.value.func, ast.Attribute) \
+                    and 'loc' in norm(st.value.func.value).lower() and _shrinks(st.value):
+                return st
+            if isinstance(st, ast.Call) and call_name(st) and call_name(st).endswith('.append'):
+                for a in st.args:
+                    if isinstance(a, ast.Tuple) and any(_shrinks(x) for x in a.elts):
+                        return st
+    return None
+
+
 def location_gating(rep: Report, rid: str) -> None:
     """shared with C11"""
     for rel, cname, expect in (
@@ -302,14 +348,38 @@ def location_gating(rep: Report, rid: str) -> None:
             return facts
         at_ctor: list = []
 
+        rebinds: list = []
+
         def on_stmt(st, states, _ctor=ctor[0]):
             if isinstance(st, (ast.If, ast.While, ast.For, ast.With, ast.Try)):
                 return
             if any(x_ is _ctor for x_ in ast.walk(st)):
                 at_ctor.extend(states)
+            # the requested location set is replaced (a default, a filtered copy ...)
+            tg = st.targets if isinstance(st, ast.Assign) else ([st.target] if isinstance(st, (ast.AnnAssign, ast.AugAssign)) else [])
+            if any(isinstance(t, ast.Name) and t.id == 'locations' for t in tg):
+                rebinds.extend((st, x_) for x_ in states)
         Flow(Disjunctive(PathCond(upd=upd), cap=512), on_stmt=on_stmt).run(fn, [PathCond.initial()])
         if not at_ctor:
             raise AnalysisError(f'{cname}: DrmManifestContext(...) is not reached')
+        # the requested locations are replaced by the system's default only when none were given: an EMPTY
+        # request (every requested location filtered away, `drm=clearkey-pro`) is a request for nothing
+        if rebinds:
+            none_given = ('atom', 'locations is None')
+            wrong = [(st_, x_) for st_, x_ in rebinds if pc_entails(x_[0], none_given) is not True]
+            shrink = empty_location_set_possible(rep) if wrong else None
+            if wrong and shrink is None:
+                rep.ok(rid, c, 'locations replaced only when None',
+                       'replaced on a path that does not imply `locations is None`, but nothing between the drm option and '
+                       'the DRM systems can empty a requested set')
+            elif wrong:
+                rep.fail(rid, c, 'locations replaced only when None',
+                         f'`{short(wrong[0][0], 60)}` replaces the requested location set on a path that does not imply '
+                         f'`locations is None` (path: {pc_show(wrong[0][1][0])[:100]}): an empty request gets the '
+                         f'default locations, and `{short(shrink, 60)}` (line {shrink.lineno}) can empty a requested set: pssh data '
+                         'appears where none was asked for', wrong[0][0])
+            else:
+                rep.ok(rid, c, 'locations replaced only when None', f'{len(rebinds)} path(s)')
         gens: dict[str, set[str]] = {}
         for loc, want in expect.items():
             v = kws.get(loc)
